@@ -116,7 +116,7 @@ theorem checking_never_iterates_an_iterator (env : Env) (orc : Nat → Val → R
     subst hv
     simp only [anyRaw, ih1 c xs ys rfl hc, ih3 c xs ys rfl hc]
   all_goals (intros; try trivial)
-  all_goals (subst_vars; simp [isInstance, anyRaw, clsNode, clsFNode, anyNode, literalNode, typeOfNode, fwdNode, bareNode, mapNode, tupleNode,
+  all_goals (subst_vars; simp [isInstance, anyRaw, clsNode, clsFNode, ntNode, anyNode, literalNode, typeOfNode, fwdNode, bareNode, mapNode, tupleNode,
     tupleVarNode, Val.hasAsdict, Val.typeOf, Val.tupleItems, Val.items, Val.isNone])
 
 /-- … hence no check of a call consumes an iterator argument: the verdict is independent of its pending items -/
